@@ -11,3 +11,9 @@ func verifArgRoundTrip(x []byte) []byte {
 	e := bytesconv.AppendQuotedArg(nil, x)
 	return decodeArgAppend(nil, e)
 }
+
+// verifPathRoundTrip composes the path encoder and the '+'-preserving decoder in the same way.
+func verifPathRoundTrip(x []byte) []byte {
+	e := bytesconv.AppendQuotedPath(nil, x)
+	return decodeArgAppendNoPlus(nil, e)
+}
